@@ -78,6 +78,65 @@ fn big_input_faults(out: &mut Out) {
 	}
 }
 
+/// A reader whose fault is an error WITHOUT a custom payload: an OS error
+/// (`EIO`) or a bare `ErrorKind` — what real files, pipes and sockets produce.
+struct PlainFault {
+	inner: SchedReader,
+	at: usize,
+	os: bool,
+}
+
+impl std::io::Read for PlainFault {
+	fn read(&mut self, buf: &mut [u8]) -> std::io::Result<usize> {
+		if self.inner.pos >= self.at {
+			return Err(if self.os { std::io::Error::from_raw_os_error(5) } else { std::io::ErrorKind::TimedOut.into() });
+		}
+		let room = self.at - self.inner.pos;
+		let n = buf.len().min(room);
+		self.inner.read(&mut buf[..n])
+	}
+}
+
+fn plain_faults(out: &mut Out, items: &[(Fmt, Vec<u8>)], thorough: bool) {
+	let want_os = std::io::Error::from_raw_os_error(5).to_string();
+	let want_kind = std::io::Error::from(std::io::ErrorKind::TimedOut).to_string();
+	for (idx, (f, input)) in items.iter().enumerate() {
+		if !thorough && idx % 3 != 0 {
+			continue;
+		}
+		for from in [Some(*f), None] {
+			let clean = translate(input, &Supply::Reader(vec![]), from, Fmt::Json);
+			if !clean.ok() {
+				continue;
+			}
+			for k in 0..=input.len() {
+				for os in [true, false] {
+					let mut w = FaultWriter::new(None, vec![]);
+					let r = catch(|| {
+						let reader = PlainFault { inner: SchedReader::new(input, vec![], true, None), at: k, os };
+						xt::translate_reader(reader, from.map(Fmt::xt), xt::Format::Json, &mut w)
+					});
+					let want = if os { &want_os } else { &want_kind };
+					out.eval("reader_fault_plain_error", &format!("{}{:?}{k}{os}", hex(input), from.map(Fmt::name)), true);
+					let problem = match &r {
+						Err(p) => Some(format!("panicked: {p}")),
+						Ok(Ok(())) => Some("returned success".to_string()),
+						Ok(Err(e)) if !e.to_string().contains(want.as_str()) => Some(format!("error text lost the reader's message ({want:?}): {e}")),
+						Ok(Err(_)) => None,
+					};
+					if let Some(p) = problem {
+						out.fail(
+							"reader_fault",
+							"",
+							format!("input {} from={} to=json, reader failing with {} once {k} bytes were delivered: {p}", hex(input), from.map(Fmt::name).unwrap_or("detect"), if os { "an OS error (EIO)" } else { "a bare ErrorKind::TimedOut" }),
+						);
+					}
+				}
+			}
+		}
+	}
+}
+
 pub fn run(out: &mut Out, rng: &mut Rng, thorough: bool) {
 	big_input_faults(out);
 	let mut items = vec![];
@@ -109,6 +168,7 @@ pub fn run(out: &mut Out, rng: &mut Rng, thorough: bool) {
 			items.push((Fmt::Yaml, crate::engines::encoding::encode_text(text, enc, bom)));
 		}
 	}
+	plain_faults(out, &items, thorough);
 	for (f, input) in &items {
 		for from in [Some(*f), None] {
 			let tos: Vec<Fmt> = if thorough { ALL_FMTS.to_vec() } else { vec![*rng.pick(&ALL_FMTS), *rng.pick(&ALL_FMTS)] };
